@@ -225,14 +225,27 @@ def _find_nth(hay: str, needle: str, nth, what: str) -> List[Tuple[int, int]]:
     return [idxs[nth]]
 
 
-DROP_INSERTS: set = set()      # (fn_label, vc location) of proof-hint blocks left out of a changed function (rule R26)
-DROP_CLAUSES: set = set()      # (fn_label, clause label) pairs left out of contract-only stubs (rule R25, set by the runner)
+import threading
+_TLS = threading.local()     # per-thread: units are assembled concurrently
+
+
+def set_drops(clauses: set, inserts: set):
+    """(fn_label, clause label) pairs left out (rule R25) and (fn_label, vc location) proof blocks left out (rule R26)"""
+    _TLS.clauses, _TLS.inserts = clauses, inserts
+
+
+def _drop_clauses() -> set:
+    return getattr(_TLS, 'clauses', set())
+
+
+def _drop_inserts() -> set:
+    return getattr(_TLS, 'inserts', set())
 
 
 def _render_block(blk: ClauseBlock, indent: str, fn_label: str) -> List[Seg]:
     segs = []
-    if DROP_CLAUSES:
-        kept = ClauseBlock([c for c in blk.clauses if (fn_label, c.label) not in DROP_CLAUSES])
+    if _drop_clauses():
+        kept = ClauseBlock([c for c in blk.clauses if (fn_label, c.label) not in _drop_clauses()])
         blk = kept
     for text, cl in blk.render(indent):
         if cl is None:
@@ -592,9 +605,32 @@ def extract_fn(unit: str, file: str, item: str, mode: str, contracts, canary: bo
         cls = find_closures(toks, blo, bhi)
         for k, cs in sorted(c.closures.items()):
           with _Txn():
-            if k >= len(cls):
+            # a closure is addressed by ordinal; when the sidecar also names its parameters, the names must match -- if closures
+            # were added or removed in front of it, the one closure with exactly these parameter names is taken instead
+            def _names(cl0):
+                out_, d_ = [], 0
+                for w in range(cl0.bar_tok + 1, cl0.params_end_tok):
+                    tw = toks[w]
+                    if tw.kind == 'punct' and tw.text in ('(', '[', '<'):
+                        d_ += 1
+                    elif tw.kind == 'punct' and tw.text in (')', ']', '>'):
+                        d_ -= 1
+                    elif tw.kind == 'ident' and d_ == 0 and tw.text not in ('mut', 'ref') and toks[w - 1].text in ('|', ',', 'mut', '&') and toks[w + 1].text in (',', ':', '|'):
+                        out_.append(tw.text)
+                return out_
+            want = None
+            if cs.params is not None:
+                want = [m_.group(1) for m_ in re.finditer(r'(?:^|,)\s*(?:mut\s+)?(\w+)\s*:', cs.params)]
+            cl = cls[k] if k < len(cls) else None
+            if want and (cl is None or (_names(cl) != want and toks[cl.bar_tok].text != '||')):
+                match = [c0 for c0 in cls if _names(c0) == want]
+                if len(match) == 1:
+                    cl = match[0]
+                    info.rewrites.append('A4:closure%d re-anchored by parameter names' % k)
+                else:
+                    raise LostAnchor('%s: closure %d with parameters %s not found' % (fn_label, k, want))
+            if cl is None:
                 raise LostAnchor('%s: closure %d not found (function has %d closures)' % (fn_label, k, len(cls)))
-            cl = cls[k]
             if cs.params is not None:
                 if toks[cl.bar_tok].text == '||':
                     edits.append((toks[cl.bar_tok].start, toks[cl.bar_tok].end, '|%s|' % cs.params, rw('A4')))
@@ -603,7 +639,7 @@ def extract_fn(unit: str, file: str, item: str, mode: str, contracts, canary: bo
             spec_segs = [Seg(' -> %s\n' % cs.ret if cs.ret else '\n', rw('A4'))] + _render_block(cs.block, '                ', fn_label)
             info.clauses += cs.block.clauses
             ins_at = toks[cl.params_end_tok].end
-            prf = (' proof { %s } ' % cs.proof) if cs.proof and (fn_label, '%s:%d' % (c.vc_file, cs.vc_line)) not in DROP_INSERTS else ''
+            prf = (' proof { %s } ' % cs.proof) if cs.proof and (fn_label, '%s:%d' % (c.vc_file, cs.vc_line)) not in _drop_inserts() else ''
             if cl.is_block:
                 edits.append((ins_at, ins_at, ('SEGS', spec_segs), rw('A4')))
                 if prf:
@@ -623,7 +659,7 @@ def extract_fn(unit: str, file: str, item: str, mode: str, contracts, canary: bo
         for ins in c.inserts:
           with _Txn():
             org = {'kind': 'insert', 'fn': fn_label, 'vc': '%s:%d' % (ins.vc_file, ins.vc_line), 'tags': c.serves}
-            if (fn_label, org['vc']) in DROP_INSERTS:
+            if (fn_label, org['vc']) in _drop_inserts():
                 raise LostAnchor('%s: proof block %s left out (does not compile against the changed function)' % (fn_label, org['vc']))
             n_as = len(re.findall(r'\bassert\s*\(', ins.text)) + len(re.findall(r'\bassert\s+forall\b', ins.text))
             info.n_asserts += n_as
